@@ -130,7 +130,7 @@ def run(tier, seed):
         report_disagreements(rep, sets, "poll discipline")
     rep.nontrivial = len(set((c["what"], c["cmd"], c["k"]) for c in cases))
     rep.samples = [{"what": c["what"], "inject": c["umb"], "answer": a[:160]} for c, a in list(zip(cases, ps.answers))[:3]]
-    rep.coverage.update({"stopped": stopped, "poll_indices": [min(ks), max(ks)], "programs": list(BODIES), "blocking_probes": len(blocked), "exhaustive": False})
+    rep.coverage.update({"stopped": stopped, "poll_indices": [min(ks), max(ks)], "program_shapes": list(BODIES), "blocking_probes": len(blocked), "exhaustive": False})
     rep.assumptions = ["mpsc delivers a sent command to the next try_recv / recv of the worker", "a command is 'sent at instant t' = it is in the channel before the first poll after t"]
     return rep.finish("make -C coq Properties/C19.vo && coqc <pinned statements>", TRUSTED_BASE_COMMON + ["axioms: none"],
                       "for each of 5 program shapes (terminating, tail loop, printing loop, loop through catch-all traps, loop inside a trap) x {INTERRUPT, ABORT} x poll index k (1..59 and random up to 3000; thorough: every k up to 1500), followed by a usability probe in the same interpreter; 6 threaded probes of the blocking primitives; every (shape, command, k) is distinct")
